@@ -157,6 +157,12 @@ def judge(case):
             if str(expect).count("'sub'") != str(got).count("'sub'"):
                 kind = "subcircuit-annotation-lost"
         fails.append((kind, {"expected": _show(expect), "got": _show(got)}))
+    try:
+        again = M.core_from_ir(r)
+        if not M.tree_equal(M.meaning(again, expand_macros=False), M.meaning(kr, expand_macros=False)) or len(r.body.statements) != len(list(r.body.statements)):
+            fails.append(("result-reads-differently-the-second-time", {}))
+    except Exception as ex:
+        fails.append(("result-cannot-be-read-again:" + type(ex).__name__, {"error": str(ex)[:150]}))
     hd = header_diff(kc, kr)
     if hd:
         fails.append(("header-changed:" + "+".join(h[0] for h in hd), {"diff": hd}))
